@@ -26,6 +26,8 @@ OPTIONAL = [
     ("TITLE", "Song: a;b"), ("DELAYS", "3.000=0.250"), ("WARPS", "8.000=2.000"), ("BGCHANGES", "0.000=bg.png=1.000=0=0=1"),
     ("ANIMATIONS", "1.000=anim"), ("ATTACKS", "TIME=1.0:LEN=2.0:MODS=drunk"), ("DISPLAYBPM", "100:200"),
     ("VERSION", "0.72"), ("LABELS", "0.000=Intro"), ("XUNKNOWN", "u"), ("SUBTITLE", ""), ("KEYONLY", None),
+    # empty, blank and key-only values of properties for which the SSC format has a non-empty default
+    ("TICKCOUNTS", ""), ("SPEEDS", " "), ("COMBOS", None),
 ]
 MANDATORY = {
     "OFFSET": ("0.000", "-0.125"),
